@@ -1,7 +1,7 @@
 (* C06 - sum and difference equal the Cartesian sum: structural part.  Pinned theorems only. *)
 From Coq Require Import ZArith List Bool Reals Lra.
 From Flocq Require Import Core BinarySingleNaN.
-Require Import GV.FloatBase GV.FloatLemmas GV.AngleM GV.AngleProofs GV.GeonumM GV.GeonumProofs GV.TraitsM GV.NewProofs GV.CtorProofs GV.PiBounds GV.TrigProofs GV.DotValue GV.DistValue GV.ClosureProofs GV.SumUpper GV.DirProofs GV.SumDir.
+Require Import GV.FloatBase GV.FloatLemmas GV.AngleM GV.AngleProofs GV.GeonumM GV.GeonumProofs GV.TraitsM GV.NewProofs GV.CtorProofs GV.PiBounds GV.TrigProofs GV.DotValue GV.DistValue GV.ClosureProofs GV.SumUpper GV.DirProofs GV.SumDir GV.Atan2Ideal.
 Open Scope R_scope.
 
 (* subtraction IS addition of the half-turned operand, in all four spellings; translate IS addition *)
@@ -103,3 +103,11 @@ Theorem C06_cartesian : forall (L : libm) (u u2 : R) a b, cos_acc L u -> sin_acc
   Rabs (R_ (mag r) * cos (dirR (ang r)) - Vx) <= T /\ Rabs (R_ (mag r) * sin (dirR (ang r)) - Vy) <= T.
 Proof. exact gadd_cartesian. Qed.
 Print Assumptions C06_cartesian.
+
+(* the libm premises of C06_cartesian are JOINTLY satisfiable: the correctly rounded real cos / sin and a rounded,
+   clamped real angle function meet them with u = 2^-52 and u2 = 2^-50 *)
+Theorem C06_premises_inhabited : exists L : libm,
+  cos_acc L (/ 4503599627370496) /\ sin_acc L (/ 4503599627370496) /\
+  atan2_acc L (/ 1125899906842624) /\ / 4503599627370496 <= / 1000.
+Proof. exists ideal_libm2. exact ideal2_hyps. Qed.
+Print Assumptions C06_premises_inhabited.
